@@ -1,4 +1,4 @@
-(* C06: what one pass of syncJob (C05/Model.v sync_pods) does to the pod set,
+(* What one pass of syncJob (C05/Model.v sync_pods) does to the pod set (used by C06 and by C05/Partition.v),
    for every spec, pod set and fault set: exact pod set, idempotence,
    crash/restart convergence. *)
 From Coq Require Import ZArith List Bool Lia Permutation.
